@@ -42,7 +42,7 @@ IsBaseOf(b, et) == IF et \notin DOMAIN Def.base THEN FALSE
 \* does a row with trigger rev react to an occurrence of dynamic type et ?
 Matches(rev, et) ==
    \/ rev = et
-   \/ /\ rev = "any" /\ et # "none" /\ ~Cfg.fct
+   \/ /\ rev \in {"any", "anyu"} /\ et # "none" /\ ~Cfg.fct       \* boost::any / std::any, and a user-declared Kleene type
    \/ /\ IsBaseOf(rev, et) /\ ~(IsM /\ Cfg.fct)
 Convertible(et, xev) == et = xev \/ IsBaseOf(xev, et)
 
